@@ -86,13 +86,48 @@ def register_more(reg):
         X = h.seq
         h.tag["elem_fact"] = lambda i, X=X, kind=fs.kind: z3.And(PV.is_PStr(X[i]), z3.Select(kind, PV.sval(X[i])) == 1)
 
+    WALK_ENS = [
+        (["C01", "C15"], "lists_exactly_the_regular_files_at_or_below_the_path",
+         "with_lemma(under_unfold(path_str({P}), f), (f in result[1]) == file_under(path_str({P}), f))"),
+        (["C01", "C15"], "every_listed_path_is_a_regular_file", "implies(f in result[1], fs_isfile(f))"),
+        (["C01", "C15"], "total_is_the_sum_of_their_sizes",
+         "with_lemma(size_unfold(path_str({P})), result[0] == size_under(path_str({P})))"),
+    ]
+
+    def walk_ens(P):
+        return [(p_, l_, e_.replace("{P}", P)) for p_, l_, e_ in WALK_ENS]
+
     C("torrentfile.utils.filelist_total", props=[], params={"pathstring": "any"}, returns="tuple[nat,list[str]]",
       spec_only=True,
       post_hook=_ft_post,
+      ghost={"f": "str"},
       ensures=["implies(fs_isfile(pathstring), len(result[1]) == 1 and result[1][0] == as_str(pathstring) "
-               "and result[0] == len(fs_data(pathstring)))"],
+               "and result[0] == len(fs_data(pathstring)))"] + walk_ens("pathstring"),
       raises={"torrentfile.utils.MissingPathError": {}},
-      notes="assumed here (verified under C01/C09): returns (total size, sorted file list)")
+      notes="filelist_total = Memo(_filelist_total): Memo.__call__ is proved to return the wrapped function evaluated now, and "
+            "_filelist_total is proved below against the same clauses (its recursive calls use this contract: induction over the "
+            "directory tree); what stays assumed here is only that the two compose")
+
+    C("torrentfile.utils._filelist_total",
+      props=["C01", "C15", "C08"],
+      params={"path": {"cls": "Path", "fields": {"pathstr": "str"}}},
+      returns="tuple[int,list[str]]",
+      ghost={"f": "str"},
+      fs_modifies=[],
+      ensures=walk_ens("path"),
+      raises={"torrentfile.utils.MissingPathError": {}},
+      loops={0: {"index": "_i0",
+                 "lemmas_after_body": ["under_step(entries(path), _i0 - 1, f)", "size_step(entries(path), _i0 - 1)",
+                                       "under_step(entries(path), _i0, f)", "size_step(entries(path), _i0)"],
+                 "invariant": [
+                     ("total_so_far", "total == size_under_first(entries(path), _i0)"),
+                     ("listed_so_far", "(f in filelist) == file_under_any(entries(path), _i0, f)"),
+                     ("only_regular_files", "implies(f in filelist, fs_isfile(f))"),
+                 ]}},
+      notes="the recursive directory walk behind every v1 creation, for every finite directory tree: the list returned is exactly the "
+            "set of regular files at or below the path (file_under, defined by the same recursion over directory entries) and the total "
+            "is the sum of their sizes.  Termination, order and absence of duplicates are not part of this contract (sortedness comes "
+            "from sorted(); bounded harness)")
 
 
 def _memo_setup(p, env):
